@@ -25,7 +25,20 @@
 #include "common/vf.h"
 #include "common/vf_interpose.h"
 
+// TSan variant: compile the (header-only) future code the way release builds do (NDEBUG). The debug assert in
+// FutureContext::value() performs an acquire load of _head, which would supply the happens-before edge that the
+// READY exchange of the futex word has to provide for get()/wait_for() (mutant "READY exchange relaxed" escaped
+// TSan because of it). The asan variant keeps the asserts.
+#if VF_TSAN && !defined(NDEBUG)
+#define NDEBUG
+#define C08_LOCAL_NDEBUG
+#endif
 #include "babylon/future.h"
+#ifdef C08_LOCAL_NDEBUG
+#undef NDEBUG
+#undef C08_LOCAL_NDEBUG
+#include <cassert>
+#endif
 
 namespace {
 
